@@ -119,4 +119,14 @@ def _framing(rep):
     return rep["clause"] in res["verdict"][0]["clauses"]
 
 
-REPLAYERS = {"framing": _framing, "gate_script": _gate_script, "version_runs": _version_runs, "handshake": _handshake, "handshake_server": _handshake_server, "dispatch_case": _dispatch_case, "session_ops": _session_ops, "errorclass_case": _errorclass_case, "errorclass_sets": _errorclass_sets}
+def _stdio_out(rep):
+    from harness.props import framing_out
+    from harness.drivers import stdio_drv
+    t = stdio_drv.run_out([rep["script"]], 0)
+    print(json.dumps(t[0]))
+    res = validate.validate("StdioOutTrace", t, framing_out.CONSTS, work=os.path.join(tlc.WORK, "replay_so"), jobs=1)
+    print("rejected:", res["rejected"], "failed:", res["failed"])
+    return bool(res["rejected"]) or any(c != "x" for c in res["failed"].get(0, []))
+
+
+REPLAYERS = {"stdio_out": _stdio_out, "framing": _framing, "gate_script": _gate_script, "version_runs": _version_runs, "handshake": _handshake, "handshake_server": _handshake_server, "dispatch_case": _dispatch_case, "session_ops": _session_ops, "errorclass_case": _errorclass_case, "errorclass_sets": _errorclass_sets}
